@@ -375,6 +375,18 @@ Definition vswrite (f : frec) (key n : Z) : frec * Z * list dev :=
     if nz (vswrite_denied (v_access v)) then (f, FAIL, []) else
     (upd_vrecs (drop_vrec f key) ({| v_key := key; v_isvs := true; v_access := v_access v; v_aid := v_aid v; v_marked := true |} :: f_vrecs (drop_vrec f key)), n, [WData n])
   end.
+(** VSsetfields on a vdata with [nv] records and [wn] fields set: it DEFINES the record layout (marks the vdata) under
+    the path condition regenerated from vsfld.c; otherwise it only builds the read list, which needs records *)
+Definition vsdefine (f : frec) (key nv wn : Z) : frec * Z * list dev :=
+  match find_vrec f key with
+  | None => (f, FAIL, [])
+  | Some v =>
+    if negb (v_isvs v) then (f, FAIL, []) else
+    if nz (vssetfields_defines_layout (v_access v) nv wn) then
+      (upd_vrecs (drop_vrec f key) ({| v_key := key; v_isvs := true; v_access := v_access v; v_aid := v_aid v; v_marked := true |} :: f_vrecs (drop_vrec f key)), 0, [])
+    else if 0 <? nv then (f, 0, []) else (f, FAIL, [])
+  end.
+
 (** Vdetach / VSdetach: a marked 'w' instance is written back *)
 Definition vdetach (f : frec) (key : Z) : frec * Z * list dev :=
   match find_vrec f key with
@@ -438,7 +450,7 @@ Inductive op :=
 | OSeek (aid off : Z) | OTrunc (aid len : Z) | OSetLength (aid len : Z) | OAppendable (aid : Z) | OEndAccess (aid : Z)
 | OPutElement (tag ref len : Z) | ODupdd (tag ref otag oref : Z) | ODeldd (tag ref : Z) | OReuse (tag ref : Z)
 | OSpecialCreate (which tag ref : Z) | OHLconvert (aid : Z) | OSync | OCache (on : Z)
-| OVattach (ref mode : Z) | OVSattach (ref mode : Z) | OVset (key : Z) | OVSwrite (key n : Z) | OVdetach (key : Z)
+| OVattach (ref mode : Z) | OVSattach (ref mode : Z) | OVset (key : Z) | OVSwrite (key n : Z) | OVSdefine (key nv wn : Z) | OVdetach (key : Z)
 | OVdelete (isvs : bool) (ref : Z) | OClose.
 
 Definition step (f : frec) (o : op) : frec * Z * list dev :=
@@ -464,6 +476,7 @@ Definition step (f : frec) (o : op) : frec * Z * list dev :=
   | OVSattach r m => vsattach f r m
   | OVset k => vset f k
   | OVSwrite k n => vswrite f k n
+  | OVSdefine k nv wn => vsdefine f k nv wn
   | OVdetach k => vdetach f k
   | OVdelete b r => vdelete f b r
   | OClose => hclose f
@@ -486,5 +499,6 @@ Definition mutating (o : op) : bool :=
   | OReuse _ _ | OSpecialCreate _ _ _ | OHLconvert _ | OVSwrite _ _ | OVset _ | OVdelete _ _ => true
   | OVattach _ m => Z.eqb m CH_W
   | OVSattach _ m => Z.eqb m CH_W
+  | OVSdefine _ nv _ => nv <=? 0       (* no records: the call can only be a layout definition *)
   | _ => false
   end.
